@@ -24,8 +24,8 @@ use vcommon::{arg_or, for_each_payload, open_input};
 
 const TICK_MS: u64 = 100;
 /// Real time on a loaded machine: a timed request may be this late and still count as "within its bound".
-const SLACK_MS: u64 = 1000;
-const FINAL_WAIT_MS: u64 = 1800;
+const SLACK_MS: u64 = 2000;
+const FINAL_WAIT_MS: u64 = 2800;
 
 #[repr(C)]
 #[derive(Serialize, Deserialize, Archive, Debug, Clone)]
@@ -447,7 +447,7 @@ pub async fn run() {
         for o in obs {
             requests += 1;
             *outcomes.entry(o.outcome.clone()).or_default() += 1;
-            let odd = o.outcome.starts_with("other") || (o.timeout_ms > 0 && (o.outcome == "pending" || o.elapsed_ms > o.timeout_ms + SLACK_MS))
+            let odd = o.outcome.starts_with("other") || (faults == 0 && slow_ms == 0 && o.outcome != "reply") || (o.timeout_ms > 0 && (o.outcome == "pending" || o.elapsed_ms > o.timeout_ms + SLACK_MS))
                 || runs.get(&o.id).cloned().unwrap_or(0) > 1 || (o.outcome == "reply" && (!o.payload_ok || o.reply_id != o.id));
             writeln!(f, "{}", json!({"sched": i, "slow_ms": slow_ms, "id": o.id, "timeout_ms": o.timeout_ms, "outcome": o.outcome,
                 "reply_id": o.reply_id, "payload_ok": o.payload_ok, "elapsed_ms": o.elapsed_ms,
